@@ -32,6 +32,7 @@ type Ctx struct {
 	cgEdges  int
 	allFuncs map[*ssa.Function]bool
 	Arch386  bool
+	onceChecked, onceBad bool
 }
 
 var quickPatterns = []string{
